@@ -709,8 +709,6 @@ class Interp:
             return ("app", "transpose", (base,))
         if attr in ("ndim", "dtype", "size"):
             return ("app", attr, (base,))
-        if k == "sym":
-            return ("sym", base[1] + "." + attr)
         return ("bound", base, attr)
 
     def self_attr(self, name, fr):
